@@ -13,8 +13,9 @@ let parse_cmd (e : string) : cmdres =
     | 'o' -> "echo " ^ marker | 'e' -> "echo " ^ marker ^ " >&2"
     | 'x' -> Printf.sprintf "echo %s; exit %d" marker status | 'k' -> Printf.sprintf "exit %d" status
     | 'i' -> "echo mk-" ^ marker
+    | 'c' -> ""
     | _ -> Printf.sprintf "echo %s; echo %s >&2" marker marker in
-  let text = "echo " ^ marker ^ " >>\"$T\"; " ^ body in
+  let text = if shape = 'c' then "" else "echo " ^ marker ^ " >>\"$T\"; " ^ body in
   let out = if shape = 'i' then "mk-" ^ marker ^ "\n" else if shape = 'o' || shape = 'x' || shape = 'b' then marker ^ "\n" else "" in
   let err = if shape = 'e' || shape = 'b' then marker ^ "\n" else "" in
   { c_cmd = bytes_of_string text; c_out = bytes_of_string out; c_err = bytes_of_string err; c_status = nat_of_int status }
